@@ -52,7 +52,7 @@ def run(ctx):
     counter_protocol(ctx)
     srvflow.run_check(
         ctx, design=DESIGN, edge_cfgs=EDGES, negs=NEGS, invariants=INV, corpus=["server_core.ndjson", "server_cmd.ndjson", "server_cmd_sat.ndjson", "server_fault.ndjson"],
-        random_flavour=("core", "fault"), random_quick=240,
+        random_flavour=("core", "fault", "mix"), random_quick=300,
         thorough_design=THOROUGH, live=["LIVE_C03.cfg", "LIVE_C03_w2.cfg"],
         neg_live=[("NEG_LIVE_WakeAtLimit.cfg", ["temporal"])], nontrivial=nontrivial,
         signature=lambda rec, pred, s: "%s:W%d:L%d" % (pred, s["cfg"]["W"], s["cfg"]["Limit"]),
